@@ -378,16 +378,18 @@ Proof.
   - apply IH; [exact Hnd|]. intros Hin. apply Hn. right. exact Hin.
 Qed.
 
-Lemma add_decl_ok st d st' : state_ok st -> add_decl st d = Some st' -> state_ok st'.
+Lemma add_decl_ok st d : state_ok st -> state_ok (fst (add_decl st d)).
 Proof.
-  intros (H1 & H2 & H3). destruct d as [n|n cs]; cbn [add_decl].
-  - destruct (mem_str n (st_cvs st)) eqn:E; [discriminate|]. intros H; injection H as <-.
+  intros (H1 & H2 & H3). destruct d as [on|on cs]; cbn [add_decl].
+  - destruct (mem_str (match on with Some n => n | None => default_cv_name st end) (st_cvs st)) eqn:E; cbn [fst]; [repeat split; assumption|].
     apply mem_str_false in E. unfold state_ok, bias_names. cbn [st_cvs st_biases]. repeat split.
     + apply NoDup_snoc; assumption.
     + exact H2.
     + intros b c Hb Hc. apply in_or_app. left. apply (H3 b c Hb Hc).
-  - destruct (mem_str n (bias_names st)) eqn:E; [discriminate|].
-    destruct (forallb (fun c => mem_str c (st_cvs st)) cs) eqn:F; [|discriminate]. intros H; injection H as <-.
+  - destruct (mem_str (match on with Some n => n | None => default_bias_name (S (st_nharm st)) end) (bias_names st)) eqn:E; cbn [fst];
+      [unfold state_ok, bias_names in *; cbn [st_cvs st_biases]; repeat split; assumption|].
+    destruct (forallb (fun c => mem_str c (st_cvs st)) cs) eqn:F; cbn [fst];
+      [|unfold state_ok, bias_names in *; cbn [st_cvs st_biases]; repeat split; assumption].
     apply mem_str_false in E. unfold state_ok, bias_names in *. cbn [st_cvs st_biases]. repeat split.
     + exact H1.
     + rewrite map_app. cbn [map fst]. apply NoDup_snoc; assumption.
@@ -399,8 +401,32 @@ Qed.
 Lemma add_decls_ok ds : forall st, state_ok st -> state_ok (fst (add_decls st ds)).
 Proof.
   induction ds as [|d r IH]; intros st H; cbn [add_decls]; [exact H|].
-  destruct (add_decl st d) as [st'|] eqn:E; [|exact H].
-  apply IH. apply (add_decl_ok st d st' H E).
+  assert (H' := add_decl_ok st d H). destruct (add_decl st d) as [st' ok]. cbn [fst] in H'.
+  destruct ok; [apply IH; exact H' | exact H'].
+Qed.
+
+(* the rank counter never decreases while objects are added or deleted: a default bias name is never handed out twice *)
+Lemma add_decl_counter st d : (st_nharm st <= st_nharm (fst (add_decl st d)))%nat.
+Proof.
+  destruct d as [on|on cs]; cbn [add_decl].
+  - destruct (mem_str _ (st_cvs st)); cbn [fst st_nharm]; lia.
+  - destruct (mem_str _ (bias_names st)); [cbn [fst st_nharm]; lia|]. destruct (forallb _ cs); cbn [fst st_nharm]; lia.
+Qed.
+
+Lemma rank_counter_survives_deletion n st d :
+  st_nharm (del_bias n st) = st_nharm st /\ st_nharm (del_cv n st) = st_nharm st /\ (st_nharm st <= st_nharm (fst (add_decl st d)))%nat.
+Proof. split; [reflexivity|]. split; [reflexivity | apply add_decl_counter]. Qed.
+
+Lemma unnamed_bias_gets_fresh_rank st cs st' :
+  add_decl st (DBias None cs) = (st', true) ->
+  st_nharm st' = S (st_nharm st) /\ In (default_bias_name (S (st_nharm st)), cs) (st_biases st') /\
+  ~ In (default_bias_name (S (st_nharm st))) (bias_names st).
+Proof.
+  cbn [add_decl]. destruct (mem_str (default_bias_name (S (st_nharm st))) (bias_names st)) eqn:E; [intros H; discriminate|].
+  destruct (forallb (fun c => mem_str c (st_cvs st)) cs); [|intros H; discriminate].
+  intros H. injection H as <-. cbn [st_nharm st_biases]. split; [reflexivity|]. split.
+  - apply in_or_app. right. left. reflexivity.
+  - apply mem_str_false. exact E.
 Qed.
 
 Section ExecProofs.
